@@ -378,6 +378,131 @@ func genZooFault(r *Rng, i int) Case {
 	return &zooFaultCase{S: s}
 }
 
+// interruptedCase (C04): a run that fails half way (a generator error for one type), then — the cause gone, the sources
+// unchanged — two more runs, against three runs on a tree nothing ever disturbed: the generated files and gengo.sum are
+// the same bytes in the end.  (What a run produces is a function of the sources, not of how earlier runs ended.)
+type interruptedCase struct {
+	S               PScn   `json:"scenario"`
+	Fail            string `json:"fail"` // gen@pkgpath@type: the call that fails in the first run
+	disturbed, calm *POut
+}
+
+func (c *interruptedCase) ensure() {
+	if c.calm != nil {
+		return
+	}
+	ref := cloneScn(c.S)
+	ref.Runs = 3
+	c.calm = runScenarios([]*PScn{&ref}, 1)[0]
+	root, err := os.MkdirTemp("", "vhint")
+	if err != nil {
+		c.disturbed = &POut{Result: "harness:" + err.Error()}
+		return
+	}
+	defer os.RemoveAll(root)
+	first := cloneScn(c.S)
+	first.Root = root
+	first.Reacts[c.Fail] = "fv-"
+	runScenarios([]*PScn{&first}, 1)
+	second := cloneScn(c.S)
+	second.Root, second.Reuse, second.Runs = root, true, 2
+	c.disturbed = runScenarios([]*PScn{&second}, 1)[0]
+}
+
+func lastTree(o *POut) map[string]string {
+	if n := len(o.Runs); n > 0 {
+		return o.Runs[n-1].After
+	}
+	return o.After
+}
+func (c *interruptedCase) Line() string { return "" }
+func (c *interruptedCase) Run() string {
+	c.ensure()
+	return "calm=" + c.calm.Result + " disturbed=" + c.disturbed.Result
+}
+func (c *interruptedCase) Oracle(out string) string {
+	c.ensure()
+	if c.calm.Result != "ok" || c.disturbed.Result != "ok" {
+		return ""
+	}
+	a, b := lastTree(c.calm), lastTree(c.disturbed)
+	var rels []string
+	for rel := range a {
+		rels = append(rels, rel)
+	}
+	for rel := range b {
+		if _, ok := a[rel]; !ok {
+			rels = append(rels, rel)
+		}
+	}
+	sort.Strings(rels)
+	for _, rel := range rels {
+		base := filepath.Base(rel)
+		if !(strings.HasPrefix(base, pipeBase+".") || base == "gengo.sum") {
+			continue
+		}
+		if a[rel] != b[rel] {
+			return fmt.Sprintf("after a failed run (%s failing) and two more runs on the unchanged sources, %s is not what three runs on an undisturbed tree leave (undisturbed %q, disturbed %q)", c.Fail, rel, a[rel], b[rel])
+		}
+	}
+	return ""
+}
+func (c *interruptedCase) Shrinks() []Case {
+	var out []Case
+	for i := range c.S.Pkgs {
+		if len(c.S.Pkgs) < 2 || strings.Contains(c.Fail, "@"+c.S.Pkgs[i].path()+"@") {
+			continue
+		}
+		n := cloneScn(c.S)
+		n.Pkgs = append(append([]PPkg{}, n.Pkgs[:i]...), n.Pkgs[i+1:]...)
+		n.Entry = nil
+		for j := range n.Pkgs {
+			n.Pkgs[j].Imports = nil
+			n.Entry = append(n.Entry, j)
+		}
+		out = append(out, &interruptedCase{S: n, Fail: c.Fail})
+	}
+	return out
+}
+func (c *interruptedCase) Key() string {
+	return fmt.Sprintf("%d packages, %s fails first", len(c.S.Pkgs), c.Fail)
+}
+func (c *interruptedCase) Classes() []string {
+	return []string{fmt.Sprintf("packages:%d", len(c.S.Pkgs)), fmt.Sprintf("all:%v", c.S.All)}
+}
+func (c *interruptedCase) Nontrivial() bool { return true }
+func (c *interruptedCase) InDomain() bool   { return true }
+
+func genInterrupted(r *Rng, i int) Case {
+	for {
+		s := genScenario(r, pipeProfile{maxPkgs: 4, allChance: 100})
+		s.All, s.Force, s.Prev = true, false, "none"
+		// no scripted failures of its own, every package an entrypoint
+		s.Entry = nil
+		for j := range s.Pkgs {
+			s.Entry = append(s.Entry, j)
+		}
+		var keys []string
+		for k, v := range s.Reacts {
+			if v[0] == 'f' || (len(v) > 2 && v[2] == 'e') || v[1] == 'x' {
+				s.Reacts[k] = "ov-"
+			}
+			keys = append(keys, k)
+		}
+		sort.Strings(keys)
+		sim := s.simulate(&POut{Hashes: map[string]string{}})
+		// the failing call must be one that is really made
+		var made []string
+		for _, call := range sim.calls {
+			made = append(made, strings.TrimSuffix(call, "!"))
+		}
+		if len(made) == 0 || len(s.Pkgs) < 2 {
+			continue
+		}
+		return &interruptedCase{S: s, Fail: made[r.Intn(len(made))]}
+	}
+}
+
 type aloneCase struct {
 	pipeCase
 	alone map[int]*POut
@@ -1228,6 +1353,12 @@ func init() {
 	}})
 	register(&Property{ID: "C04", Streams: []*Stream{
 		rerunStream,
+		{
+			Name: "interrupted-rerun", Quick: 40, Thorough: 300, New: func() Case { return &interruptedCase{} },
+			Gen:          genInterrupted,
+			ShrinkBudget: 8, MaxShrinks: 2,
+			Rule: pipeRuleCommon + "All runs over 2–4 packages: one run in which one generator call fails, then two runs on the unchanged sources with the failure gone, against three runs on a tree that was never disturbed; oracle only: the generated files and gengo.sum are the same bytes in the end",
+		},
 		{
 			Name: "regenerate-alone", Quick: 60, Thorough: 500, New: func() Case { return &aloneCase{} },
 			Gen:      genAloneImports,
